@@ -192,14 +192,6 @@ func eq(this, that []types.Type) bool {
 }
 
 func (tm *typesMap) nameOf(typs []types.Type) (string, bool) {
-	for _, t := range typs {
-		if n, ok := t.(*types.Named); ok {
-			pkg := n.Obj().Pkg()
-			if pkg != nil {
-				tm.qual(pkg)
-			}
-		}
-	}
 	// The functions are searched in the order in which they were registered, and a function for
 	// exactly these types is preferred over one for types they are merely assignable to, so that the
 	// answer does not depend on map iteration order when several functions match.
